@@ -261,6 +261,10 @@ def malformed(R, rng, tier):
     cases.append(("toml-tool-int", "c.toml", "tool = 1\n", []))
     cases.append(("toml-bandit-int", "c.toml", "[tool]\nbandit = 2\n", []))
     cases.append(("toml-empty", "c.toml", "", []))
+    # the bytes of the file: TOML is UTF-8 by definition, YAML also comes as UTF-16 with a byte order mark
+    cases.append(("toml-invalid-utf8", "c.toml", b'[tool.bandit]\nskips = ["B101"] # caf\xe9\n', []))
+    cases.append(("toml-utf16", "c.toml", '[tool.bandit]\nskips = ["B101"]\n'.encode("utf-16"), []))
+    cases.append(("yaml-top-invalid-utf8", "c.yaml", b"skips: [B101] # caf\xe9\n", []))
     cases.append(("missing-file", None, None, []))
     cases.append(("unknown-profile", "c.yaml", "profiles:\n  a:\n    include: [B101]\n", ["-p", "nosuch"]))
     cases.append(("contradictory", "c.yaml", "tests: [B101]\nskips: [B101]\n", []))
@@ -274,7 +278,11 @@ def malformed(R, rng, tier):
             path = d
         else:
             path = os.path.join(d, fn)
-            open(path, "w").write(text)
+            if isinstance(text, bytes):
+                open(path, "wb").write(text)
+                text = repr(text)
+            else:
+                open(path, "w").write(text)
         r = climain.run_main(["-q", "-f", "json", "-c", path] + extra + [tgt])
         R.case(("malformed", name), sample={"case": name, "exit": r["exit"], "exception": r["exception"]})
         R.count("malformed:" + name.split("-")[0])
@@ -289,6 +297,18 @@ def malformed(R, rng, tier):
                                      "input": inp, "observed": r["exit"], "signature": None})
             elif not (r["stderr"].strip() or r["stdout"].strip()):
                 R.violations.append({"what": "malformed configuration (%s) rejected without a diagnostic" % name, "input": inp, "observed": "", "signature": None})
+    # a YAML file in UTF-16 (byte order mark) is the same configuration as its UTF-8 rendering
+    for doc in ("skips: [B101]\n", "tests: [B102, B105]\n", "shell_injection:\n  subprocess: [myspawn]\n  shell: []\n  no_shell: []\n"):
+        p8, p16 = os.path.join(d, "u8.yaml"), os.path.join(d, "u16.yaml")
+        open(p8, "wb").write(doc.encode("utf-8"))
+        open(p16, "wb").write(doc.encode("utf-16"))
+        a = climain.run_main(["-q", "-f", "json", "-c", p8, tgt])
+        b = climain.run_main(["-q", "-f", "json", "-c", p16, tgt])
+        R.case(("yaml-utf16", doc), sample={"config": doc, "exit_utf8": a["exit"], "exit_utf16": b["exit"], "exception": b["exception"]})
+        R.count("malformed:encoding")
+        if b["exception"] or a["exit"] != b["exit"] or results(a) != results(b):
+            R.violations.append({"what": "the same YAML configuration in UTF-16 gives %s, in UTF-8 exit %s" % (b["exception"] or "exit %s" % b["exit"], a["exit"]),
+                                 "input": {"config_text": doc}, "observed": (b["traceback"] or "")[-300:], "signature": None})
     # INI values arrive as strings
     for key, val, what in (("level", "2", "ini-level"), ("confidence", "3", "ini-confidence"), ("recursive", "false", "ini-recursive"),
                            ("number", "x", "ini-number"), ("aggregate", "nosuch", "ini-aggregate"), ("format", "nosuch", "ini-format")):
